@@ -299,6 +299,15 @@ class Node:
             ov = cls(CommunitySettings(my_peer=Node._me, endpoint=ep, network=Network(), anonymize=anonymize))
             ov.cancel_all_pending_tasks()
             self.overlays.append(ov)
+        elif k == "ounload":        # Community.unload of a launched overlay (completes without a loop turn:
+            co = self.overlays[op[1]].unload()     # its tasks were cancelled at launch); oracle-only histories
+            try:
+                for _ in range(50):
+                    co.send(None)
+                co.close()
+                raise RuntimeError("Community.unload did not finish")
+            except StopIteration:
+                pass
         elif k == "launchtunnel":
             self._make_tc()
         elif k == "newcirc":
@@ -743,6 +752,13 @@ class Oracle:
             self.asked[len(self.asked)] = (op[1], op[2])
             if op[2]:
                 self.on[op[1]] = True
+        elif k == "ounload":
+            # the unloaded overlay's own request ends; a sibling instance with the same prefix that asked for
+            # anonymity keeps relying on the switch.  If nobody alive relies on it, either state is acceptable.
+            pfx = self.asked.get(op[1], (None, False))[0]
+            self.asked[op[1]] = (pfx, False)
+            if pfx is not None and not any(b and p_ == pfx for p_, b in self.asked.values()):
+                self.on[pfx] = dict(st["post"]["settings"]).get(pfx, False)
         elif k == "launchtunnel":
             self.attached, self.hops = True, 1
             if st["tcpfx"] is not None:
@@ -783,7 +799,7 @@ async def _work_cases(cases):
     for (full, ops) in cases:
         steps, cidx = run_ops(ops, full)
         viol = Oracle().judge(steps, cidx)
-        if any(op[0] == "qbound" for op in ops):        # not comparable with the model (its bound is the source's)
+        if any(op[0] in ("qbound", "ounload") for op in ops):   # not comparable with the model (its bound is the source's; it has no unload)
             out.append((None, viol, summarize(steps)))
             continue
         out.append((case_coq(steps, cidx) + (str(path_digest(steps, cidx, bytes_full)),
@@ -1106,6 +1122,33 @@ def gen_overflow(r, variant):
     return ops
 
 
+def gen_siblings(r):
+    """two or three instances of overlays on one endpoint, some sharing a community id (an overlay re-created
+    before its predecessor is unloaded); one is unloaded, the others keep sending through their own code
+    (seed C07h: Community.unload switched the shared prefix's anonymity off).  Oracle only: the model has no unload."""
+    pf = [PFX_A, PFX_A, r.choice([PFX_A, PFX_B])]
+    asked = [r.random() < 0.85 for _ in pf]
+    n = r.choice([2, 2, 3])
+    ops = [("launch", pf[i], asked[i]) for i in range(n)]
+    if r.random() < 0.5:
+        ops.insert(r.randrange(len(ops) + 1), ("launchtunnel",))
+    else:
+        ops.append(("launchtunnel",))
+    live = list(range(n))
+    if r.random() < 0.8:            # a ready one-hop circuit with an IPv8-capable exit
+        ops += [("osend", r.choice(live), r.randrange(1, 40), True), ("addhop", -1, 50, [4])]
+    dead = r.choice(live)
+    live.remove(dead)
+    for _ in range(r.choice([0, 1, 2])):
+        ops.append(("osend", r.choice(live + [dead]), r.randrange(1, 40), True))
+    ops.append(("ounload", dead))
+    for _ in range(r.choice([1, 2, 4])):
+        ops.append(("osend", r.choice(live), r.randrange(1, 40), r.random() < 0.8))
+        if r.random() < 0.3:
+            ops.append(("addhop", -1, r.choice([50, 52]), [4]))
+    return ops
+
+
 def gen_full(r, n):
     """real overlays launched on the endpoint, sending through their own code"""
     ops = []
@@ -1192,7 +1235,7 @@ def run_notify_impl(listeners, from_tunnel, open_=True):
 def valid_history(ops, full):
     """histories the harness can execute meaningfully: an overlay sends only after it was launched; with real
     construction (full) the tunnel community exists only after its launch"""
-    novl, tc = 0, not full
+    novl, tc, dead = 0, not full, set()
     for n_, op in enumerate(ops):
         k = op[0]
         if k == "qbound":
@@ -1200,8 +1243,12 @@ def valid_history(ops, full):
                 return False
         elif k == "launch":
             novl += 1
-        elif k == "osend" and op[1] >= novl:
+        elif k == "osend" and (op[1] >= novl or op[1] in dead):
             return False
+        elif k == "ounload":
+            if op[1] >= novl or op[1] in dead or not full:
+                return False
+            dead.add(op[1])
         elif k == "launchtunnel":
             if tc:
                 return False
@@ -1428,6 +1475,9 @@ def _stage_c(ctx, r, pool, have_model, have_gen=False):
     # ---- histories with real overlays (full construction per case)
     for i in range(400 if ctx.quick else 2000):
         cases.append((True, gen_full(r, r.choice([4, 8, 14, 25]))))
+    rs = ctx.rng("siblings")        # its own stream: the histories above stay what they were
+    for i in range(120 if ctx.quick else 600):
+        cases.append((True, gen_siblings(rs)))
     chunks = [cases[i:i + 50] for i in range(0, len(cases), 50)]
     results = [x for part in pool.map(work_cases, chunks, chunksize=1) for x in part]
     tm["impl_histories"] = round(time.time() - t0, 1)
